@@ -119,9 +119,36 @@ def modes(quick):
     return out
 
 
+def sandwich_banks():
+    """One rule (NP -> DT NN) under three vertical contexts of which the first and the last differ only in the fan-out
+    of an ancestor (VP with and without a gap) and the middle one differs in labels; every order of the three."""
+    import itertools
+
+    def tok(word, tag, num):
+        return {"w": word, "p": tag, "n": num, "e": "--", "lem": "--", "m": "--"}
+
+    def node(label, children):
+        return {"l": label, "e": "--", "lem": "--", "m": "--", "c": children}
+    gap = node("VROOT", [node("S", [node("VP", [node("NP", [tok("a", "DT", 1), tok("b", "NN", 2)]), tok("c", "VB", 4)]), tok("d", "ADV", 3)])])
+    flat = node("VROOT", [node("S", [node("NP", [tok("a", "DT", 1), tok("b", "NN", 2)]), tok("c", "VB", 3)])])
+    cont = node("VROOT", [node("S", [node("VP", [node("NP", [tok("a", "DT", 1), tok("b", "NN", 2)]), tok("c", "VB", 3)]), tok("d", "ADV", 4)])])
+    trees = [gap, flat, cont]
+    for order in itertools.permutations(range(3)):
+        yield [{"sid": i + 1, "root": trees[k]} for i, k in enumerate(order)]
+    yield [{"sid": i + 1, "root": t} for i, t in enumerate([gap, gap, flat, cont, flat, gap])]
+
+
 def gen(ctx):
     quick = ctx.tier == "quick"
     all_modes = modes(quick)
+    if ctx.shard == 0:
+        for bank in sandwich_banks():
+            case = {"bank": bank, "modes": all_modes}
+            try:
+                ctx.run_case(check, case)
+            except Violation as vio:
+                ctx.record(vio)
+            ctx.count(key=(bank, "all-modes"), nontrivial=True, classes=["sandwich:contexts-coincide-non-adjacently"])
 
     @st.composite
     def cases(draw):
